@@ -34,6 +34,18 @@ Profile GetProfile(const std::string& name, bool thorough) {
     p.pm_cmd_fail = 150; p.gen.features |= F_RSP | F_HOSTILE_NAMES;
   } else if (name == "C20") {
     p.pm_cmd_fail = 120; p.pm_tty = 400; p.hostile_output = true; p.gen.features |= F_CONSOLE;
+  } else if (name == "C10") {
+    p.twin_deps = true; p.check_convergence = false;
+    p.gen.features |= F_DEPFILE | F_DEPSGCC | F_DEPSMSVC | F_GEN_HEADERS | F_RESTAT;
+    p.gen.features &= ~(F_REGEN | F_DYNDEP);
+    p.w_del_log = 0; p.w_del_depfile = 0; p.w_regen = 0; p.w_inflate_log = 0; p.w_include_churn = 4; p.w_edit_includes = 3;
+    p.pm_cmd_fail = 0; p.pm_interrupt = 0; p.pm_crash = 0; p.pm_editor = 0; p.buggify = false;
+  } else if (name == "C11") {
+    p.twin_dyndep = true; p.check_convergence = false;
+    p.gen.features |= F_DYNDEP | F_RESTAT | F_ORDERONLY;
+    p.gen.features &= ~F_REGEN;
+    p.w_del_log = 0; p.w_del_depfile = 0; p.w_regen = 0; p.w_inflate_log = 0;
+    p.pm_cmd_fail = 0; p.pm_interrupt = 0; p.pm_crash = 0; p.pm_editor = 0; p.buggify = false;
   } else if (name == "C17") {
     p.gen.cycles = true; p.cycles = true; p.pm_cmd_fail = 0; p.pm_editor = 0; p.w_dry = 2;
     p.gen.features |= F_DYNDEP | F_VALIDATION | F_DEPSGCC | F_MULTIOUT | F_HIDDEN_NOPATH;
@@ -53,6 +65,16 @@ Profile GetProfile(const std::string& name, bool thorough) {
 
 namespace {
 
+// What the first world of a metamorphic pair did at each build, for the second.
+struct TwinBuild {
+  bool comparable = false;               // successful and quiet
+  std::set<int> ran;
+  std::map<int, std::vector<std::string>> known_hidden;   // what had been discovered *before* this build
+  std::map<std::string, std::string> contents;            // outputs after the build
+  std::set<int> pending_restat;   // ran although restat: the restat came from a dyndep file whose producer also ran (K20)
+};
+struct TwinRecords { std::vector<TwinBuild> builds; };
+
 struct Driver {
   Tape& tape;
   const Profile& prof;
@@ -62,6 +84,10 @@ struct Driver {
   int fork_index = 0;
   int builds_done = 0;
   bool dead = false;
+  int twin_role = 0;            // 0 none, 1 first world (records), 2 second world (compares)
+  TwinRecords* twin = nullptr;
+  int build_no = 0;
+  bool invalid_dyndep_run = false;   // C11: single-world run with damaged dyndep files
   std::string& log;
 
   Driver(Tape& t, const Profile& p, RunResult& r) : tape(t), prof(p), rr(r), log(r.decoded) {}
@@ -90,6 +116,13 @@ struct Driver {
       int n = 1 + (int)H(2);
       for (int i = 0; i < n && !outs.empty(); i++) {
         std::string t = outs[H((uint32_t)outs.size())];
+        // an output only a dyndep file declares is not a name ninja knows on the
+        // command line; in the inlined variant it is (C11 compares like with like)
+        if (prof.twin_dyndep) {
+          bool dyn_only = false;
+          for (auto& dd : w.sc.dyndeps) for (auto& e : dd.entries) for (auto& o : e.imp_outs) if (o == t) dyn_only = true;
+          if (dyn_only) continue;
+        }
         if (std::find(p.targets.begin(), p.targets.end(), t) == p.targets.end()) p.targets.push_back(t);
       }
     }
@@ -404,11 +437,106 @@ struct Driver {
     }
   }
 
+  // Second world of C10: what the first world had discovered so far is written
+  // into the manifest as implicit inputs, and nothing is discovered.
+  void ApplyDeclaredDeps(const std::map<int, std::vector<std::string>>& known) {
+    for (Stmt& s : w.sc.stmts) {
+      if (s.deps_kind == 0) continue;
+      s.deps_kind = 0;
+      s.depfile.clear();
+    }
+    for (Stmt& s : w.sc.stmts) {
+      if (!s.alive) continue;
+      s.extra_imp.clear();
+      auto k = known.find(s.id);
+      if (k == known.end()) continue;
+      for (auto& h : k->second) {
+        if (std::find(s.ins.begin(), s.ins.end(), h) != s.ins.end() || std::find(s.imp_ins.begin(), s.imp_ins.end(), h) != s.imp_ins.end()) continue;
+        s.extra_imp.push_back(h);
+      }
+    }
+    w.WriteManifest();
+  }
+  std::map<int, std::set<std::string>> twin_added;
+
+  // Second world of C11: the dyndep information is written into the manifest.
+  void ApplyInlinedDyndeps() {
+    for (Stmt& s : w.sc.stmts) {
+      if (s.dyndep.empty()) continue;
+      const DyndepEntry* e = w.sc.DyndepFor(s.id);
+      if (e) {
+        for (auto& p : e->imp_ins) if (std::find(s.ins.begin(), s.ins.end(), p) == s.ins.end() && std::find(s.imp_ins.begin(), s.imp_ins.end(), p) == s.imp_ins.end()) s.imp_ins.push_back(p);
+        for (auto& p : e->imp_outs) s.imp_outs.push_back(p);
+        if (e->restat) s.restat = true;
+      }
+      s.dyndep.clear();
+    }
+    // the files stay, with the same text (their producers still run); nobody is bound to them any more
+    for (auto& dd : w.sc.dyndeps) dd.detached = true;
+    w.WriteManifest();
+  }
+
+  void TwinBeforeBuild() {
+    if (twin_role == 2 && prof.twin_deps && build_no < (int)twin->builds.size()) ApplyDeclaredDeps(twin->builds[build_no].known_hidden);
+  }
+  void TwinAfterBuild(const InvRecord& r) {
+    if (twin_role == 0) return;
+    std::set<int> ran;
+    for (auto& x : r.spawns) ran.insert(x.stmt);
+    bool comparable = r.ok() && r.quiet() && !r.plan.dry;
+    std::map<std::string, std::string> contents;
+    for (const Stmt& s : w.sc.stmts) if (s.alive && !s.phony) for (auto& o : s.outs) { std::string c; if (w.k.ReadFile(o, &c)) contents[o] = c; }
+    if (twin_role == 1) {
+      TwinBuild b;
+      b.comparable = comparable;
+      b.ran = ran;
+      b.known_hidden = known_before;
+      b.contents = contents;
+      for (int id : ran) {
+        const Stmt& s = w.sc.stmts[id];
+        const DyndepEntry* e = w.sc.DyndepFor(id);
+        const DyndepFile* dd = s.dyndep.empty() ? nullptr : w.sc.FindDyndep(s.dyndep);
+        if (e && e->restat && dd && dd->producer >= 0 && ran.count(dd->producer)) b.pending_restat.insert(id);
+      }
+      twin->builds.push_back(b);
+    } else if (build_no < (int)twin->builds.size()) {
+      const TwinBuild& b = twin->builds[build_no];
+      const char* prop = prof.twin_deps ? "C10" : "C11";
+      if (b.comparable && comparable) {
+        rr.stats.n["twin_builds_compared"]++;
+        bool only_pending_restat = !b.pending_restat.empty();
+        for (int x : b.ran) if (!ran.count(x) && !b.pending_restat.count(x)) only_pending_restat = false;
+        for (int x : ran) if (!b.ran.count(x)) only_pending_restat = false;
+        if (b.ran != ran && only_pending_restat && prof.twin_dyndep) {
+          std::string a;
+          for (int x : b.ran) if (!ran.count(x)) a += std::to_string(x) + " ";
+          w.Report(prop, "twin_divergence_pending_restat", "build " + std::to_string(build_no) + ": statement(s) " + a + "re-ran in the dyndep variant only: their restat attribute comes from a dyndep file that was pending at scan time because its producer had to run");
+        } else if (b.ran != ran) {
+          std::string a, c;
+          for (int x : b.ran) a += std::to_string(x) + " ";
+          for (int x : ran) c += std::to_string(x) + " ";
+          w.Report(prop, "twin_divergence", std::string("build ") + std::to_string(build_no) + ": the " + (prof.twin_deps ? "discovered-dependency" : "dyndep") + " variant ran statements [" + a + "] but the variant with the same information written in the manifest ran [" + c + "]");
+        }
+        for (auto& kv : contents) {
+          auto o = b.contents.find(kv.first);
+          if (o != b.contents.end() && o->second != kv.second)
+            w.Report(prop, "twin_divergence", "build " + std::to_string(build_no) + ": '" + kv.first + "' differs between the two variants");
+        }
+        if (!b.ran.empty() && prof.twin_deps) { bool disc = false; for (auto& kh : b.known_hidden) if (!kh.second.empty()) disc = true; if (disc) rr.stats.nontrivial["C10"] = true; }
+        if (!b.ran.empty() && prof.twin_dyndep) rr.stats.nontrivial["C11"] = true;
+      }
+    }
+    build_no++;
+  }
+  std::map<int, std::vector<std::string>> known_before;
+
   void DoBuild() {
     // (K15 can delete the manifest; everything after that only repeats it)
     if (!w.k.Exists("build.ninja")) { dead = true; return; }
     InvPlan p = MakeBuildPlan();
     PlanProcessFaults(p);
+    TwinBeforeBuild();
+    known_before = w.reported_hidden;
     Note(PlanText(p));
     InvRecord r = w.RunInvocation(p);
     Note(ResultText(r));
@@ -430,6 +558,7 @@ struct Driver {
     if (prof.check_convergence) CheckConvergence(r);
     CheckFailureFollowUp(r);
     CheckRecovery(r);
+    TwinAfterBuild(r);
   }
 
   // ---------------------------------------------------------------- tools (C18, C19)
@@ -904,6 +1033,116 @@ struct Driver {
     DoBuild();
   }
 
+  // C11, invalid variants: the dyndep file is damaged (as a storage fault for a
+  // source file, or written damaged by its producer mid-build); a build that needs
+  // it must fail with an error instead of accepting it.
+  void DoInvalidDyndep() {
+    std::vector<int> cands;
+    for (size_t i = 0; i < w.sc.dyndeps.size(); i++) {
+      bool live = false;
+      for (auto& e : w.sc.dyndeps[i].entries) if (e.stmt >= 0 && w.sc.stmts[e.stmt].alive) live = true;
+      if (live && !w.sc.dyndeps[i].detached) cands.push_back((int)i);
+    }
+    if (cands.empty()) return;
+    const DyndepFile& dd = w.sc.dyndeps[cands[H((uint32_t)cands.size())]];
+    std::string good = w.sc.DyndepText(dd);
+    std::vector<std::string> lines;   // with their newline
+    for (size_t i = 0; i < good.size();) { size_t nl = good.find('\n', i); lines.push_back(good.substr(i, nl - i + 1)); i = nl + 1; }
+    std::vector<size_t> build_lines;
+    for (size_t i = 0; i < lines.size(); i++) if (lines[i].compare(0, 6, "build ") == 0) build_lines.push_back(i);
+    if (build_lines.empty()) return;
+    uint32_t v = H(9);
+    std::string bad, what;
+    const DyndepEntry* first = nullptr;
+    for (auto& e : dd.entries) if (e.stmt >= 0 && w.sc.stmts[e.stmt].alive) { first = &e; break; }
+    std::string consumer_out = w.sc.stmts[first->stmt].outs[0];
+    auto join = [&](const std::vector<std::string>& ls) { std::string s; for (auto& l : ls) s += l; return s; };
+    if (v == 0) { bad = "<absent>"; what = "missing"; }
+    else if (v == 1) {   // cut inside the version line
+      size_t cut = 1 + H((uint32_t)lines[0].size() - 3);
+      bad = good.substr(0, cut); what = "truncated inside the version line";
+    } else if (v == 2) { // cut at a line boundary so that a build statement is lost
+      size_t keep = build_lines[H((uint32_t)build_lines.size())];
+      std::vector<std::string> ls(lines.begin(), lines.begin() + keep);
+      bad = join(ls); what = "truncated before a build statement";
+    } else if (v == 3) { // a dangling pipe at the end of the file
+      size_t bl = build_lines.back();
+      std::vector<std::string> ls(lines.begin(), lines.begin() + bl);
+      bad = join(ls) + "build " + NinjaPathEscape(consumer_out) + " | "; what = "truncated right after 'build out | '";
+      if (H(2)) { bad = join(ls) + "build " + NinjaPathEscape(consumer_out) + ": dyndep | "; what = "truncated right after ': dyndep | '"; }
+    } else if (v == 4) { // a build statement deleted
+      std::vector<std::string> ls = lines;
+      size_t bl = build_lines[H((uint32_t)build_lines.size())];
+      size_t n = (bl + 1 < ls.size() && ls[bl + 1].compare(0, 2, "  ") == 0) ? 2 : 1;
+      ls.erase(ls.begin() + bl, ls.begin() + bl + n);
+      bad = join(ls); what = "a build statement deleted";
+    } else if (v == 5) { // a build statement duplicated
+      std::vector<std::string> ls = lines;
+      size_t bl = build_lines[H((uint32_t)build_lines.size())];
+      ls.push_back(lines[bl]);
+      bad = join(ls); what = "a build statement duplicated";
+    } else if (v == 6) { // a statement without the binding
+      std::string other;
+      for (const Stmt& s : w.sc.stmts) if (s.alive && !s.phony && !s.regen && s.dyndep != dd.path) other = s.outs[0];
+      if (other.empty()) return;
+      bad = good + "build " + NinjaPathEscape(other) + ": dyndep\n"; what = "an extra build statement for an output without the binding";
+    } else if (v == 7) { // claims an output twice / one another statement produces
+      std::string other;
+      for (const Stmt& s : w.sc.stmts) if (s.alive && !s.phony && !s.regen && s.id != first->stmt) other = s.outs[0];
+      std::string claim = (H(2) || other.empty()) ? consumer_out : other;
+      std::vector<std::string> ls = lines;
+      size_t bl = build_lines[0];
+      std::string l = ls[bl];
+      size_t colon = l.find(": dyndep");
+      size_t pipe = l.find(" | ");
+      if (pipe != std::string::npos && pipe < colon) l.insert(colon, " " + NinjaPathEscape(claim)); else l.insert(colon, " | " + NinjaPathEscape(claim));
+      ls[bl] = l;
+      bad = join(ls); what = "an implicit output that is already produced ('" + claim + "')";
+    } else {              // an input that closes a cycle
+      std::vector<std::string> ls = lines;
+      size_t bl = build_lines[0];
+      std::string l = ls[bl];
+      l.erase(l.size() - 1);
+      if (l.find(": dyndep |") == std::string::npos) l += " |";
+      l += " " + NinjaPathEscape(consumer_out) + "\n";
+      ls[bl] = l;
+      bad = join(ls); what = "an implicit input that closes a cycle";
+    }
+    Note("invalid dyndep: " + dd.path + " is " + what);
+    w.dd_override[dd.path] = bad;
+    auto dirty_producer = [&]() {
+      if (dd.producer < 0) return;
+      const Stmt& p = w.sc.stmts[dd.producer];
+      for (auto& in : p.ins) if (w.sc.IsSource(in) && !w.sc.FindDyndep(in)) { w.version[in]++; w.emptied.erase(in); w.k.WriteFile(in, w.SourceContent(in), true); return; }
+      w.k.Remove(dd.path);
+    };
+    if (dd.producer < 0) {
+      if (bad == "<absent>") w.k.Remove(dd.path); else w.k.WriteFile(dd.path, bad, true);
+    } else {
+      dirty_producer();
+    }
+    InvPlan p;
+    p.stream = ST_INV0 + inv_index++;
+    p.j = 1 + (int)H(4);
+    p.k = H(2) ? 1 : 0;
+    p.targets.push_back(consumer_out);
+    Note(PlanText(p));
+    InvRecord r = w.RunInvocation(p);
+    Note(ResultText(r));
+    if (getenv("SIM_SHOW_OUTPUT")) Note("  stdout: " + r.res.out + "\n  stderr: " + r.res.err);
+    w.CheckTermination(r);
+    w.CheckOrdering(r);
+    rr.stats.n["invalid_dyndep_builds"]++;
+    rr.stats.nontrivial["C11"] = true;
+    bool has_error = r.res.err.find("ninja: error") != std::string::npos || r.res.out.find("ninja: build stopped") != std::string::npos;
+    if (r.res.end == ProcResult::kExit && (r.res.exit_code == 0 || !has_error))
+      w.Report("C11", "invalid_dyndep_accepted", "dyndep file " + dd.path + " (" + what + ") was accepted: ninja exited " + std::to_string(r.res.exit_code) + (has_error ? "" : " without an error message"));
+    // repair
+    w.dd_override.erase(dd.path);
+    if (dd.producer < 0) w.k.WriteFile(dd.path, w.SourceContent(dd.path), true);
+    else dirty_producer();
+  }
+
   // A regular file sits where an output directory would have to be created
   // (or the obstacle is removed again).
   void DoBlockDir() {
@@ -1047,7 +1286,9 @@ struct Driver {
     w.label = "";
     w.k.coarse_clock = prof.coarse_clock_allowed && tape.Choice(ST_HIST, 2) == 1;
     w.Init(sc);
-    Note(std::string("clock=") + (w.k.coarse_clock ? "coarse" : "fine"));
+    if (twin_role == 2 && prof.twin_dyndep) ApplyInlinedDyndeps();
+    if (twin_role == 2) w.label = "declared";
+    Note(std::string(twin_role == 2 ? "=== second world (information written into the manifest)\n" : "") + "clock=" + (w.k.coarse_clock ? "coarse" : "fine"));
     Note("--- build.ninja\n" + sc.ManifestText() + (sc.subninja ? "--- sub.ninja\n" + sc.SubManifestText() : ""));
     for (const Stmt& s : sc.stmts) if (!s.hidden.empty()) { std::string h = "# statement " + std::to_string(s.id) + " may also read:"; for (auto& x : s.hidden) h += " " + x; Note(h); }
     if (!sc.cycle_note.empty()) Note("# " + sc.cycle_note);
@@ -1061,7 +1302,7 @@ struct Driver {
       if (i == 0 && H(8) != 0) { DoBuild(); continue; }
       int ws[] = {prof.w_build, prof.w_edit, prof.w_touch, prof.w_del_out, prof.w_change_cmd, prof.w_change_rsp,
                   prof.w_regen, prof.w_del_log, prof.w_del_depfile, prof.w_clean, prof.w_cleandead, prof.w_tool_ro,
-                  prof.w_dry, prof.w_manifest_edit, prof.w_edit_includes, prof.w_empty_source, prof.w_inflate_log, prof.w_include_churn, prof.w_block_dir};
+                  prof.w_dry, prof.w_manifest_edit, prof.w_edit_includes, prof.w_empty_source, prof.w_inflate_log, prof.w_include_churn, prof.w_block_dir, invalid_dyndep_run ? 6 : 0};
       int total = 0;
       for (int x : ws) total += x;
       int c = (int)H((uint32_t)total), op = 0;
@@ -1086,6 +1327,7 @@ struct Driver {
         case 16: DoInflateLog(); break;
         case 17: DoIncludeChurn(); break;
         case 18: DoBlockDir(); break;
+        case 19: DoInvalidDyndep(); break;
       }
     }
     // histories end with a build so that every change is exercised
@@ -1098,8 +1340,46 @@ struct Driver {
 RunResult RunOne(Tape& tape, const Profile& prof) {
   RunResult rr;
   tape.Reset();
-  Driver d(tape, prof, rr);
-  d.Run();
+  if (!prof.twin_deps && !prof.twin_dyndep) {
+    Driver d(tape, prof, rr);
+    d.Run();
+    return rr;
+  }
+  // C11: a third of the runs are single-world runs with damaged dyndep files
+  if (prof.twin_dyndep && tape.Choice(ST_SCEN + 50, 3) == 0) {
+    Driver d(tape, prof, rr);
+    d.invalid_dyndep_run = true;
+    d.Run();
+    return rr;
+  }
+  // Metamorphic pair: the same tape drives both worlds through the same history.
+  TwinRecords rec;
+  {
+    Driver d(tape, prof, rr);
+    d.twin_role = 1;
+    d.twin = &rec;
+    d.Run();
+  }
+  tape.pos.clear();   // re-read the recorded choices from the start
+  {
+    RunResult r2;
+    Driver d(tape, prof, r2);
+    d.twin_role = 2;
+    d.twin = &rec;
+    d.Run();
+    for (auto& v : r2.violations) {
+      bool dup = false;
+      for (auto& x : rr.violations) if (x.prop == v.prop && x.cls == v.cls) dup = true;
+      if (!dup) rr.violations.push_back(v);
+    }
+    for (auto& kv : r2.stats.n) rr.stats.n[kv.first] += kv.second;
+    for (auto& kv : r2.stats.nontrivial) if (kv.second) rr.stats.nontrivial[kv.first] = true;
+    rr.stats.invocations += r2.stats.invocations;
+    rr.stats.spawns += r2.stats.spawns;
+    rr.stats.sim_ns += r2.stats.sim_ns;
+    rr.stats.full_hash = Hash64(&r2.stats.full_hash, 8, rr.stats.full_hash);
+    rr.decoded += r2.decoded;
+  }
   return rr;
 }
 
